@@ -840,3 +840,61 @@ Qed.
 
 Lemma propagate_model fetch_ok : propagate_ok fetch_ok (handler_returns_err fetch_ok) = true.
 Proof. destruct fetch_ok; reflexivity. Qed.
+
+(* ---------------------------------------------------------------------------------------------
+   Reads: a successful call has asked for its whole range *)
+
+Lemma zrange_In n : forall s b, s <= b < s + Z.of_nat n -> In b (zrange s n).
+Proof.
+  induction n as [|n IHn]; intros s b Hb.
+  - cbn in Hb. lia.
+  - cbn [zrange]. destruct (Z.eq_dec s b) as [Heq|Hne].
+    + left. exact Heq.
+    + right. apply IHn. rewrite Nat2Z.inj_succ in Hb. lia.
+Qed.
+
+Lemma asked_b_spec asked b :
+  asked_b asked b = true -> exists a c, In (a, c) asked /\ a <= b <= c.
+Proof.
+  unfold asked_b. intros H. apply existsb_exists in H. destruct H as [[a c] [Hin Hb]].
+  cbn [fst snd] in Hb. apply andb_true_iff in Hb. destruct Hb as [H1 H2].
+  apply Z.leb_le in H1. apply Z.leb_le in H2. exists a, c. split; [exact Hin | lia].
+Qed.
+
+Lemma covers_spec s e asked :
+  covers s e asked = true ->
+  forall b, s <= b <= e -> exists a c, In (a, c) asked /\ a <= b <= c.
+Proof.
+  unfold covers. intros H b Hb. rewrite forallb_forall in H.
+  apply asked_b_spec. apply H. apply zrange_In. rewrite Z2Nat.id by lia. lia.
+Qed.
+
+Lemma covers_self s e : covers s e (handler_asks s e) = true.
+Proof.
+  unfold covers, handler_asks. remember (Z.to_nat (e - s + 1)) as n eqn:Hn.
+  assert (Hle : s + Z.of_nat n <= Z.max (e + 1) s) by lia. clear Hn.
+  assert (Hgen : forall m t, s <= t -> t + Z.of_nat m <= Z.max (e + 1) s ->
+                 forallb (asked_b [(s, e)]) (zrange t m) = true).
+  { induction m as [|m IHm]; intros t Hst Ht; [reflexivity|].
+    cbn [zrange forallb]. rewrite Nat2Z.inj_succ in Ht. apply andb_true_iff. split.
+    - unfold asked_b. cbn [existsb fst snd]. rewrite orb_false_r. apply andb_true_iff.
+      split; apply Z.leb_le; lia.
+    - apply IHm; lia. }
+  apply Hgen; [lia | exact Hle].
+Qed.
+
+Lemma reads_model s e fired :
+  reads_ok s e fired (handler_asks s e) (handler_returns_err (negb fired)) = true.
+Proof.
+  unfold reads_ok. rewrite propagate_model. rewrite covers_self. rewrite orb_true_r. reflexivity.
+Qed.
+
+Lemma reads_ok_sound s e fired asked err :
+  reads_ok s e fired asked err = true ->
+  (fired = true -> err = true) /\
+  (err = false -> forall b, s <= b <= e -> exists a c, In (a, c) asked /\ a <= b <= c).
+Proof.
+  unfold reads_ok, propagate_ok. intros H. apply andb_true_iff in H. destruct H as [H1 H2]. split.
+  - intros Hf. subst fired. cbn in H1. exact H1.
+  - intros He. subst err. cbn in H2. apply covers_spec. exact H2.
+Qed.
